@@ -283,6 +283,7 @@ def gen_cases(rng, per_class=3, corrupt_per_obj=3, allow_share=0.25, spec=None):
             if n >= corrupt_per_obj:
                 break
     cases += gen_py_cases(g, base, rng, per_obj=1)
+    cases += gen_sequence_cases(g, rng)
     return g, cases
 
 
@@ -354,6 +355,16 @@ def run_model_cases(cases, variants, pats=None, tag="sch"):
     return out
 
 
+def gen_sequence_cases(g, rng, n=12):
+    """State kept between calls: cases flagged "seq" run in ONE worker process in the given order."""
+    cases = []
+    for k, seq in enumerate(stixgen.uuid_reuse_sequences(g, n)):
+        for step, (cid, o) in enumerate(seq):
+            cases.append({"op": "parse", "cid": cid, "data": o, "allow": False, "interop": False, "seq": k,
+                          "meta": {"origin": "sequence", "ckind": "uuid-reuse-%s-first" % seq[0][0][:3], "cid": cid, "step": step}})
+    return cases
+
+
 def run_impl_cases(cases, want_json=True):
     send = []
     for c in cases:
@@ -361,7 +372,16 @@ def run_impl_cases(cases, want_json=True):
         if want_json:
             d["want_json"] = True
         send.append(d)
-    res = common.run_impl("schema_impl", send)
+    # sequences: one process, given order; everything else is spread over the workers
+    seq_idx = [i for i, c in enumerate(cases) if c.get("seq") is not None]
+    oth_idx = [i for i, c in enumerate(cases) if c.get("seq") is None]
+    res = [None] * len(cases)
+    if seq_idx:
+        for i, r in zip(seq_idx, common.run_impl("schema_impl", [send[i] for i in seq_idx], procs=1)):
+            res[i] = r
+    if oth_idx:
+        for i, r in zip(oth_idx, common.run_impl("schema_impl", [send[i] for i in oth_idx])):
+            res[i] = r
     lines, extra = [], []
     for r in res:
         if isinstance(r, dict):
